@@ -22,13 +22,23 @@ const suite = "filter"
 // model evaluates them through its explicit loader stage (run_case_loaded).
 const suiteLoaded = "loaded"
 
+// suiteRawQ: requests whose query string is given AS WRITTEN (malformed pairs,
+// escapes, empty pieces): the model decodes the raw string itself
+// (Model.decode_query), the decoded pairs are compared with the harness's own
+// decoder and the selection is evaluated on the model-decoded parameters.
+const suiteRawQ = "rawq"
+
 type runner struct {
 	o        *c.Out
 	maxCases int
 	loader   bool // tree-level cases: write flow files, read them back with GetFlows
+	rawq     bool // the requests carry raw query strings: suite "rawq" (run_case_rawq)
 }
 
 func (r *runner) suiteName() string {
+	if r.rawq {
+		return suiteRawQ
+	}
 	if r.loader {
 		return suiteLoaded
 	}
@@ -58,7 +68,7 @@ func (r *runner) runSetRec(flows []Flow, txns []Txn, allOrders bool, label strin
 	}
 	var first *Case
 	for _, ord := range orders {
-		k := Case{Loader: r.loader}
+		k := Case{Loader: r.loader, RawQ: r.rawq}
 		for _, i := range ord {
 			k.Flows = append(k.Flows, flows[i])
 		}
@@ -71,7 +81,13 @@ func (r *runner) runSetRec(flows []Flow, txns []Txn, allOrders bool, label strin
 		}
 		idx := -1
 		if record {
-			idx = o.Case(r.suiteName(), coqCase(&k), k, nontrivial)
+			term := ""
+			if k.RawQ {
+				term = coqCaseRaw(&k)
+			} else {
+				term = coqCase(&k)
+			}
+			idx = o.Case(r.suiteName(), term, k, nontrivial)
 			o.Count("flows=" + fmt.Sprint(len(flows)))
 			o.Count("gen=" + label)
 			o.CountN("transactions", len(k.Obs))
@@ -89,14 +105,14 @@ func (r *runner) runSetRec(flows []Flow, txns []Txn, allOrders bool, label strin
 		for i := range k.Obs {
 			o.MonitorChecked(1)
 			for _, f := range checkSelection(k.Flows, k.AddErr, &k.Obs[i]) {
-				mini := Case{Flows: k.Flows, AddErr: k.AddErr, Obs: []Obs{k.Obs[i]}, Loader: k.Loader}
+				mini := Case{Flows: k.Flows, AddErr: k.AddErr, Obs: []Obs{k.Obs[i]}, Loader: k.Loader, RawQ: k.RawQ}
 				o.Hit(c.Hit{Suite: r.suiteName(), Index: idx, Signature: f.sig, Demanded: f.demanded, Observed: f.observed, Case: mini})
 			}
 		}
 		// stability: a selection handed to one transaction is not changed by later lookups
 		o.MonitorChecked(1)
 		for _, m := range k.Mutated {
-			mini := Case{Flows: k.Flows, AddErr: k.AddErr, Obs: k.Obs[m.Index:], Loader: k.Loader}
+			mini := Case{Flows: k.Flows, AddErr: k.AddErr, Obs: k.Obs[m.Index:], Loader: k.Loader, RawQ: k.RawQ}
 			o.Hit(c.Hit{Suite: r.suiteName(), Index: idx, Signature: "selection-mutated:GetFlow",
 				Demanded: fmt.Sprintf("the flows selected for %s %s (%v) are the ones run for it, whatever other transactions are looked up before it runs",
 					k.Obs[m.Index].Txn.Method, k.Obs[m.Index].Txn.URL, k.Obs[m.Index].Selected),
@@ -115,7 +131,7 @@ func (r *runner) runSetRec(flows []Flow, txns []Txn, allOrders bool, label strin
 					if !kcURL(k.Flows, k.Obs[i].Txn.URL) {
 						sig = "host-path-collision:insert" // F-C03c, judged on this URL only
 					}
-					mini := Case{Flows: k.Flows, AddErr: k.AddErr, Obs: []Obs{k.Obs[i]}, Loader: k.Loader}
+					mini := Case{Flows: k.Flows, AddErr: k.AddErr, Obs: []Obs{k.Obs[i]}, Loader: k.Loader, RawQ: k.RawQ}
 					o.Hit(c.Hit{Suite: r.suiteName(), Index: idx, Signature: sig,
 						Demanded: fmt.Sprintf("selection independent of load order; loaded as %v the selection for %s %s was %v",
 							urlsOf(first.Flows), first.Obs[i].Txn.Method, first.Obs[i].Txn.URL, first.Obs[i].Selected),
@@ -167,9 +183,13 @@ func main() {
 		"unordered codes) x every listed and unlisted status; filter and transaction URLs with upper-case letters in host labels " +
 		"and literal segments (both spellings of every URL, flows differing only in letter case) - both as Go literals and " +
 		"written as flow files read back by the production loader streamconfig.GetFlows (suite 'loaded', model stage load_flows); " +
-		"engine-level sample incl. these two families (also through exec_flow: anything happened <-> something selected). A case = one flow set in one load order with " +
+		"requests whose query string is given AS WRITTEN: a malformed sibling pair (bad percent escape, lone %, raw ';') before / after / " +
+		"between the required parameters, empty pieces, valueless and repeated keys, escaped spellings (suite 'rawq': the model decodes the raw string, " +
+		"Model.decode_query, and is compared with the harness's own decoder and with the selection); required header values x letter-case variants of the value sent; " +
+		"engine-level sample incl. these families (also through exec_flow: anything happened <-> something selected). A case = one flow set in one load order with " +
 		"its batch of transactions; distinct = distinct (ordered flow set, transactions, selections); non-trivial = at least " +
 		"one transaction selects a flow")
+	o.DeclareSuite(suiteRawQ, "From Coq Require Import String.\nFrom Verif Require Import C03.Model.\nOpen Scope string_scope.", "case_rawq", "run_case_rawq")
 	r := &runner{o: o}
 	var k Case
 	if _, ok := o.ReplayCase(&k); ok {
@@ -195,6 +215,7 @@ func replay(r *runner, k Case) {
 		return
 	}
 	r.loader = k.Loader
+	r.rawq = k.RawQ
 	// the recorded order first, then every other order (for the order-independence check)
 	r.runSet(k.Flows, txns, false, "replay")
 	r.runSet(k.Flows, txns, true, "replay-orders")
